@@ -1,5 +1,6 @@
 import OpcuaVerif.Common
 import OpcuaVerif.Model.C22
+import OpcuaVerif.Model.C23
 
 namespace OpcuaVerif.C22
 
@@ -22,6 +23,55 @@ def showSess (z : Sess) (out : List Resp) : String :=
     | some s => s!"st={stateNum s.state} life={s.life} ka={s.ka} sent={boolStr s.sent} nq={s.notifs.length}"
   s!"{sub} rq={natList z.reqs} resp={showResps out}"
 
+/-! ### arm tags (`result @@ tags`): which rows / guard outcomes / handler arms an op took -/
+
+def bucket (n : Nat) (top : Nat) : String := if n ≥ top then s!"{top}+" else toString n
+
+/-- tags of ONE `Subscriptions::tick` of session `z` (`pre` = "t" timer tick, "p" tick made for an
+arriving publish request) -/
+def tickTags (pre : String) (z : Sess) (timer e : Bool) : List String :=
+  match z.sub with
+  | none => [s!"{pre}:nosub"]
+  | some s =>
+    let q := !z.reqs.isEmpty
+    let el := timer && (decide (s.state = .creating) || e)
+    let sample := el && decide (s.state ≠ .closed) && decide (s.state ≠ .creating) && s.hasItem
+    let notif : Option Nat := if sample && s.pending then some s.seq else none
+    let s1 : Subn := if sample then { s with pending := false, seq := if s.pending then succ32 s.seq else s.seq } else s
+    let na := !s1.notifs.isEmpty || notif.isSome
+    let more := decide (s1.notifs.length > 1)
+    let live := decide (s.state = .normal ∨ s.state = .late ∨ s.state = .keepAlive)
+    let base := [s!"{pre}:st{stateNum s.state}", if q then s!"{pre}:req" else s!"{pre}:noreq"]
+      ++ (if live then [s!"{pre}:life{bucket s.life 3}", if na then s!"{pre}:na" else s!"{pre}:nona",
+                        if s.enabled then s!"{pre}:en" else s!"{pre}:dis",
+                        if s.sent then s!"{pre}:sent" else s!"{pre}:unsent"] else [])
+      ++ (if live && more then [s!"{pre}:more"] else [])
+      ++ (if timer && live then [if el then "t:el" else "t:notel",
+                                 if sample then (if notif.isSome then "t:sample-data" else "t:sample-nodata") else "t:nosample"] else [])
+      ++ (if timer && el && decide (s.state = .keepAlive) then
+            [s!"t:ka{bucket s.ka 2}-{if q then "req" else "noreq"}-{if na then "na" else "nona"}"] else [])
+    if na || el || q then
+      match updateState s1 timer { na := na, more := more, req := q, expired := el } with
+      | none => base ++ [s!"{pre}:panic"]
+      | some (s2, row, a) =>
+        let h := match a, notif with
+          | .none, some _ => if current.keepOnNone && s2.enabled then "h:none-keep" else "h:none-drop"
+          | .none, none => "h:none"
+          | .keepAlive, some _ => "h:ka-drop"
+          | .keepAlive, none => "h:ka"
+          | .notifications, some _ => "h:notif-new"
+          | .notifications, none => "h:notif-queued"
+          | .created, _ => "h:created"
+          | .expired, some _ => "h:expired-drop"
+          | .expired, none => "h:expired"
+        base ++ [s!"{pre}:r{row}", h]
+    else base ++ [s!"{pre}:skip"]
+
+def outTags (pre : String) (z' : Sess) (out : List Resp) : List String :=
+  [s!"{pre}:resp{bucket out.length 2}"] ++ (if z'.sub.isNone then [s!"{pre}:gone"] else [])
+
+def tagStr (tags : List String) : String := " @@ " ++ ",".intercalate tags.eraseDups
+
 def dstep (z : Sess) (toks : List String) : Sess × String :=
   match toks with
   | ["reset", k, l, e, i] =>
@@ -33,18 +83,51 @@ def dstep (z : Sess) (toks : List String) : Sess × String :=
   | ["timer", e, w] =>
     match parseBool? e, parseBool? w with
     | some e, some w =>
-      match sessTick (if w then write z else z) true e with
-      | some (z', out) => (z', "ok " ++ showSess z' out)
-      | none => (z, "panic")
+      let zz := if w then write z else z
+      let tags := tickTags "t" zz true e ++ (if w then ["t:write"] else [])
+      match sessTick zz true e with
+      | some (z', out) => (z', "ok " ++ showSess z' out ++ tagStr (tags ++ outTags "t" z' out))
+      | none => (z, "panic" ++ tagStr tags)
     | _, _ => (z, "bad-op")
   | ["pub", r] =>
     match r.toNat? with
     | some r =>
+      -- the ticks `enqueue_publish_request` makes: one first if the queue is full, one after queueing
+      let full := decide (z.reqs.length ≥ maxPublishRequests z)
+      let t1 := if full then tickTags "p" z false false ++ ["pub:queue-full"] else []
+      let z1 := if full then (match sessTick z false false with | some (z1, _) => z1 | none => z) else z
+      let fits := decide (z1.reqs.length < maxPublishRequests z)
+      let t2 := if fits then tickTags "p" { z1 with reqs := z1.reqs ++ [r] } false false else []
       match publish z r with
-      | .ok z' out => (z', "ok res=ok " ++ showSess z' out)
-      | .tooMany z' out => (z', "ok res=toomany " ++ showSess z' out)
-      | .panic => (z, "panic")
+      | .ok z' out => (z', "ok res=ok " ++ showSess z' out ++ tagStr (t1 ++ t2 ++ ["pub:ok"] ++ outTags "p" z' out))
+      | .tooMany z' out => (z', "ok res=toomany " ++ showSess z' out ++ tagStr (t1 ++ ["pub:toomany"] ++ outTags "p" z' out))
+      | .panic => (z, "panic" ++ tagStr (t1 ++ t2))
     | none => (z, "bad-op")
+  | ["modify", k, l] =>
+    -- the real ModifySubscription service; the server revises the counts first (default limits)
+    match k.toNat?, l.toNat?, z.sub with
+    | some k, some l, some s =>
+      match C23.revise { minPub := 0x4059000000000000, minSamp := 0x4059000000000000, defaultKa := 10,
+                         maxKa := 30000, maxLife := 90000, maxQueue := 10 } 0x40f86a0000000000 k l with
+      | some (_, k', l') =>
+        let z' := { z with sub := some (modifySub s k' l') }
+        (z', "ok " ++ showSess z' [] ++ tagStr ["svc:modify", s!"svc:modify-st{stateNum s.state}"])
+      | none => (z, "panic")
+    | some _, some _, none => (z, "err nosub" ++ tagStr ["svc:modify-nosub"])
+    | _, _, _ => (z, "bad-op")
+  | ["enable", b] =>
+    match parseBool? b, z.sub with
+    | some b, some s =>
+      let z' := { z with sub := some (setEnabled s b) }
+      (z', "ok " ++ showSess z' [] ++ tagStr [if b then "svc:enable" else "svc:disable", s!"svc:mode-st{stateNum s.state}"])
+    | some _, none => (z, "err nosub" ++ tagStr ["svc:mode-nosub"])
+    | none, _ => (z, "bad-op")
+  | ["touch"] =>
+    match z.sub with
+    | some s =>
+      let z' := { z with sub := some (touch s) }
+      (z', "ok " ++ showSess z' [] ++ tagStr ["svc:touch", s!"svc:touch-st{stateNum s.state}"])
+    | none => (z, "err nosub" ++ tagStr ["svc:touch-nosub"])
   | ["us", st, life, ka, sent, en, ml, mka, t, na, more, req, ex] =>
     -- ONE call of `update_state` from an arbitrary position (the session is not touched)
     match st.toNat?, life.toNat?, ka.toNat?, parseBool? sent, parseBool? en, ml.toNat?, mka.toNat? with
@@ -56,8 +139,9 @@ def dstep (z : Sess) (toks : List String) : Sess × String :=
         let s : Subn := { mk ml mka en false with state := state, life := life, ka := ka, sent := sent }
         match updateState s t { na := na, more := more, req := req, expired := ex } with
         | some (s', row, a) =>
-          (z, s!"ok row={row} act={actStr a} st={stateNum s'.state} life={s'.life} ka={s'.ka} sent={boolStr s'.sent}")
-        | none => (z, "ok row=panic")
+          (z, s!"ok row={row} act={actStr a} st={stateNum s'.state} life={s'.life} ka={s'.ka} sent={boolStr s'.sent}"
+            ++ tagStr [s!"us:r{row}", s!"us:st{stateNum state}-ka{ka}", s!"us:st{stateNum state}-life{life}"])
+        | none => (z, "ok row=panic" ++ tagStr ["us:panic"])
       | _, _, _, _, _ => (z, "bad-op")
     | _, _, _, _, _, _, _ => (z, "bad-op")
   | _ => (z, "bad-op")
